@@ -259,8 +259,9 @@ class AutoSerialize:
             print(f"Warning: appending .zip to path '{path}'")
             path += ".zip"
 
-        # Handle overwrite vs. write protection
-        if os.path.exists(path):
+        # Handle overwrite vs. write protection (lexists: a dangling symlink is an existing path too;
+        # writing through it would put the store somewhere the cleanup below never looks)
+        if os.path.lexists(path):
             if mode == "o":
                 if os.path.isdir(path):
                     shutil.rmtree(path)
